@@ -7,22 +7,26 @@ import (
 	"fmt"
 	"math"
 	"math/big"
+	"math/bits"
 )
 
-// R is an exact rational. Small values live in n/d (d>0, gcd 1, |n|,d < 2^62);
-// anything larger is held in b.
+// R is an exact rational. Values whose numerator and denominator fit in 62
+// bits live in n/d (d>0, gcd 1); anything larger is held in b. f caches the
+// nearest float64 (relative error ≤ 4 ulp) for the sign filters.
 type R struct {
 	n, d int64
 	b    *big.Rat
+	f    float64
 }
 
-const lim = 1 << 31
-
-func small(x R) bool { return x.b == nil && x.n < lim && x.n > -lim && x.d < lim }
+const lim62 = 1 << 62
 
 func gcd(a, b int64) int64 {
 	if a < 0 {
 		a = -a
+	}
+	if b < 0 {
+		b = -b
 	}
 	for b != 0 {
 		a, b = b, a%b
@@ -30,17 +34,31 @@ func gcd(a, b int64) int64 {
 	return a
 }
 
+// mk builds n/d from values with |n|, |d| < 2^63, d != 0.
 func mk(n, d int64) R {
 	if d < 0 {
 		n, d = -n, -d
 	}
-	if g := gcd(n, d); g > 1 {
-		n, d = n/g, d/g
+	if d != 1 {
+		if g := gcd(n, d); g > 1 {
+			n, d = n/g, d/g
+		}
 	}
-	return R{n: n, d: d}
+	if n >= lim62 || n <= -lim62 || d >= lim62 {
+		return fromBig(new(big.Rat).SetFrac64(n, d))
+	}
+	if d == 1 {
+		return R{n: n, d: 1, f: float64(n)}
+	}
+	return R{n: n, d: d, f: float64(n) / float64(d)}
 }
 
-func Int(i int64) R { return R{n: i, d: 1} }
+func Int(i int64) R {
+	if i >= lim62 || i <= -lim62 {
+		return fromBig(new(big.Rat).SetInt64(i))
+	}
+	return R{n: i, d: 1, f: float64(i)}
+}
 
 func Frac(n, d int64) R {
 	if d == 0 {
@@ -58,21 +76,24 @@ func Float(f float64) R {
 		panic("exact: non-finite float")
 	}
 	if f == math.Trunc(f) && math.Abs(f) < 1<<53 {
-		return R{n: int64(f), d: 1}
+		return R{n: int64(f), d: 1, f: f}
 	}
 	r := new(big.Rat)
 	r.SetFloat64(f)
-	return fromBig(r)
+	x := fromBig(r)
+	x.f = f
+	return x
 }
 
 func fromBig(r *big.Rat) R {
+	f, _ := r.Float64()
 	if r.Num().IsInt64() && r.Denom().IsInt64() {
 		n, d := r.Num().Int64(), r.Denom().Int64()
-		if n > -(1<<62) && n < 1<<62 && d < 1<<62 {
-			return R{n: n, d: d}
+		if n > -lim62 && n < lim62 && d < lim62 {
+			return R{n: n, d: d, f: f}
 		}
 	}
-	return R{b: r}
+	return R{b: r, f: f}
 }
 
 func (x R) big() *big.Rat {
@@ -93,10 +114,40 @@ func (x R) norm() R {
 	return x
 }
 
+// mul64 multiplies two int64 and reports overflow beyond 62 bits.
+func mul64(a, b int64) (int64, bool) {
+	neg := false
+	ua, ub := uint64(a), uint64(b)
+	if a < 0 {
+		ua, neg = uint64(-a), !neg
+	}
+	if b < 0 {
+		ub, neg = uint64(-b), !neg
+	}
+	hi, lo := bits.Mul64(ua, ub)
+	if hi != 0 || lo >= lim62 {
+		return 0, false
+	}
+	if neg {
+		return -int64(lo), true
+	}
+	return int64(lo), true
+}
+
 func (x R) Add(y R) R {
 	x, y = x.norm(), y.norm()
-	if small(x) && small(y) {
-		return mk(x.n*y.d+y.n*x.d, x.d*y.d)
+	if x.b == nil && y.b == nil {
+		if x.d == 1 && y.d == 1 {
+			return Int(x.n + y.n) // |n| < 2^62 each: no int64 overflow
+		}
+		g := gcd(x.d, y.d)
+		yd, xd := y.d/g, x.d/g
+		a, ok1 := mul64(x.n, yd)
+		b, ok2 := mul64(y.n, xd)
+		d, ok3 := mul64(x.d, yd)
+		if ok1 && ok2 && ok3 {
+			return mk(a+b, d)
+		}
 	}
 	return fromBig(new(big.Rat).Add(x.big(), y.big()))
 }
@@ -106,26 +157,47 @@ func (x R) Sub(y R) R { return x.Add(y.Neg()) }
 func (x R) Neg() R {
 	x = x.norm()
 	if x.b != nil {
-		return R{b: new(big.Rat).Neg(x.b)}
+		return R{b: new(big.Rat).Neg(x.b), f: -x.f}
 	}
-	return R{n: -x.n, d: x.d}
+	return R{n: -x.n, d: x.d, f: -x.f}
 }
 
 func (x R) Mul(y R) R {
 	x, y = x.norm(), y.norm()
-	if small(x) && small(y) {
-		return mk(x.n*y.n, x.d*y.d)
+	if x.b == nil && y.b == nil {
+		n1, d1, n2, d2 := x.n, x.d, y.n, y.d
+		if d2 != 1 {
+			if g := gcd(n1, d2); g > 1 {
+				n1, d2 = n1/g, d2/g
+			}
+		}
+		if d1 != 1 {
+			if g := gcd(n2, d1); g > 1 {
+				n2, d1 = n2/g, d1/g
+			}
+		}
+		n, ok1 := mul64(n1, n2)
+		d, ok2 := mul64(d1, d2)
+		if ok1 && ok2 {
+			if d == 1 {
+				return R{n: n, d: 1, f: float64(n)}
+			}
+			return R{n: n, d: d, f: float64(n) / float64(d)}
+		}
 	}
 	return fromBig(new(big.Rat).Mul(x.big(), y.big()))
 }
 
 func (x R) Div(y R) R {
-	x, y = x.norm(), y.norm()
+	y = y.norm()
 	if y.Sign() == 0 {
 		panic("exact: division by zero")
 	}
-	if small(x) && small(y) {
-		return mk(x.n*y.d, x.d*y.n)
+	if y.b == nil {
+		if y.n < 0 {
+			return x.Mul(R{n: -y.d, d: -y.n, f: 1 / y.f})
+		}
+		return x.Mul(R{n: y.d, d: y.n, f: 1 / y.f})
 	}
 	return fromBig(new(big.Rat).Quo(x.big(), y.big()))
 }
@@ -145,22 +217,61 @@ func (x R) Sign() int {
 
 func (x R) Cmp(y R) int {
 	x, y = x.norm(), y.norm()
-	if small(x) && small(y) {
-		a, b := x.n*y.d, y.n*x.d
-		switch {
-		case a < b:
-			return -1
-		case a > b:
+	// float filter: each cached float is within 4 ulp of the value
+	if df := x.f - y.f; df > 2e-15*(math.Abs(x.f)+math.Abs(y.f)) {
+		return 1
+	} else if -df > 2e-15*(math.Abs(x.f)+math.Abs(y.f)) {
+		return -1
+	}
+	if x.b == nil && y.b == nil {
+		if x.d == y.d {
+			switch {
+			case x.n < y.n:
+				return -1
+			case x.n > y.n:
+				return 1
+			}
+			return 0
+		}
+		sx, sy := x.Sign(), y.Sign()
+		if sx != sy {
+			if sx < sy {
+				return -1
+			}
 			return 1
 		}
-		return 0
+		if sx == 0 {
+			return 0
+		}
+		ax, ay := x.n, y.n
+		if sx < 0 {
+			ax, ay = -ax, -ay
+		}
+		h1, l1 := bits.Mul64(uint64(ax), uint64(y.d))
+		h2, l2 := bits.Mul64(uint64(ay), uint64(x.d))
+		c := 0
+		switch {
+		case h1 != h2:
+			if h1 < h2 {
+				c = -1
+			} else {
+				c = 1
+			}
+		case l1 != l2:
+			if l1 < l2 {
+				c = -1
+			} else {
+				c = 1
+			}
+		}
+		return c * sx
 	}
 	return x.big().Cmp(y.big())
 }
 
-func (x R) Eq(y R) bool { return x.Cmp(y) == 0 }
-func (x R) Lt(y R) bool { return x.Cmp(y) < 0 }
-func (x R) Le(y R) bool { return x.Cmp(y) <= 0 }
+func (x R) Eq(y R) bool  { return x.Cmp(y) == 0 }
+func (x R) Lt(y R) bool  { return x.Cmp(y) < 0 }
+func (x R) Le(y R) bool  { return x.Cmp(y) <= 0 }
 func (x R) IsZero() bool { return x.Sign() == 0 }
 
 func (x R) Abs() R {
@@ -172,6 +283,7 @@ func (x R) Abs() R {
 
 func (x R) Half() R { return x.Mul(Frac(1, 2)) }
 
+// Float returns the nearest float64 (exactly rounded).
 func (x R) Float() float64 {
 	x = x.norm()
 	if x.b != nil {
@@ -181,9 +293,15 @@ func (x R) Float() float64 {
 	if x.d == 1 {
 		return float64(x.n)
 	}
+	if x.n > -(1<<53) && x.n < 1<<53 && x.d < 1<<53 {
+		return float64(x.n) / float64(x.d)
+	}
 	f, _ := x.big().Float64()
 	return f
 }
+
+// Approx returns the cached float (within 4 ulp).
+func (x R) Approx() float64 { return x.f }
 
 // BigFloat returns x with 200 bits of precision.
 func (x R) BigFloat() *big.Float {
@@ -259,7 +377,20 @@ func Cross(a, b Pt) R { return a.X.Mul(b.Y).Sub(a.Y.Mul(b.X)) }
 func Dot(a, b Pt) R   { return a.X.Mul(b.X).Add(a.Y.Mul(b.Y)) }
 
 // Orient is the sign of the signed area of (a,b,c): +1 left turn.
-func Orient(a, b, c Pt) int { return Cross(b.Sub(a), c.Sub(a)).Sign() }
+func Orient(a, b, c Pt) int {
+	// float filter: every cached coordinate is within 4 ulp of its value, so
+	// the float determinant is within ~2^-47·M² of the true one (M = largest
+	// magnitude involved); 1e-12·M² leaves two orders of margin.
+	ax, ay, bx, by, cx, cy := a.X.f, a.Y.f, b.X.f, b.Y.f, c.X.f, c.Y.f
+	m := math.Max(math.Max(math.Max(math.Abs(ax), math.Abs(ay)), math.Max(math.Abs(bx), math.Abs(by))), math.Max(math.Abs(cx), math.Abs(cy)))
+	det := (bx-ax)*(cy-ay) - (by-ay)*(cx-ax)
+	if lim := 1e-12 * m * m; det > lim {
+		return 1
+	} else if det < -lim {
+		return -1
+	}
+	return Cross(b.Sub(a), c.Sub(a)).Sign()
+}
 
 func Mid(a, b Pt) Pt { return Pt{a.X.Add(b.X).Half(), a.Y.Add(b.Y).Half()} }
 
